@@ -63,7 +63,13 @@ type Env struct {
 	Shared    []*canvas.Font // loaded once per phase by the harness, shared read-only by all tasks
 	// Drawn[t] is the canvas task t drew with its last "draw" call and has not rendered yet
 	// (each task touches only its own slot).
-	Drawn  []*drawn
+	Drawn []*drawn
+	// Last[t] is the path returned by task t's previous call (operand of a chained call).
+	Last []*canvas.Path
+	// Family is a font family shared by all tasks (regular = font 0, bold = font 1 if the run has two fonts).
+	Family *canvas.FontFamily
+	// Paints are paint objects shared by all tasks' drawings (created once per phase).
+	Paints []interface{}
 	NoName []bool
 }
 
@@ -129,6 +135,25 @@ func NewEnv(resources, fontDir string, names []string, lazy bool) (*Env, error) 
 		e.NoName = append(e.NoName, strings.HasPrefix(n, "noname:"))
 	}
 	e.Shared = make([]*canvas.Font, len(names))
+	if len(names) > 0 {
+		e.Family = canvas.NewFontFamily("shared")
+		if err := e.Family.LoadFont(e.Bytes[0], 0, canvas.FontRegular); err != nil {
+			return nil, err
+		}
+		if len(names) > 1 {
+			if err := e.Family.LoadFont(e.Bytes[1], 0, canvas.FontBold); err != nil {
+				return nil, err
+			}
+		}
+	}
+	lg := canvas.NewLinearGradient(canvas.Point{X: 0, Y: 0}, canvas.Point{X: 30, Y: 10})
+	lg.Add(0, color.RGBA{255, 0, 0, 255})
+	lg.Add(0.4, color.RGBA{0, 170, 85, 255})
+	lg.Add(1, color.RGBA{0, 0, 255, 128})
+	rg := canvas.NewRadialGradient(canvas.Point{X: 10, Y: 10}, 1, canvas.Point{X: 12, Y: 9}, 15)
+	rg.Add(0, color.RGBA{255, 255, 0, 255})
+	rg.Add(1, color.RGBA{85, 0, 170, 255})
+	e.Paints = []interface{}{canvas.Gradient(lg), canvas.Gradient(rg), canvas.Pattern(canvas.NewLineHatch(color.RGBA{0, 85, 170, 255}, 45, 1.2, 0.25)), canvas.Pattern(canvas.NewCrossHatch(color.RGBA{170, 0, 0, 255}, 15, 75, 1.5, 2, 0.2))}
 	if !lazy {
 		for i := range names {
 			if err := e.load(i); err != nil {
@@ -223,8 +248,19 @@ func pathResult(p *canvas.Path) Result {
 	if len(s) > 160 {
 		s = s[:160] + "…"
 	}
-	return Result{Kind: "path", Hash: h.h, Brief: fmt.Sprintf("len=%d %s", len(d), s)}
+	return Result{Kind: "path", Hash: h.h, Brief: fmt.Sprintf("len=%d %s", len(d), s), obj: p}
 }
+
+// Rehash recomputes the hash of a path result's object (0 if the result holds no object).
+func (r Result) Rehash() uint64 {
+	if r.obj == nil {
+		return 0
+	}
+	return pathResult(r.obj).Hash
+}
+
+// SameObject reports whether the result's object is p.
+func (r Result) SameObject(p *canvas.Path) bool { return r.obj != nil && r.obj == p }
 
 func hashFace(h *hasher, f *canvas.FontFace, env *Env) {
 	if f == nil {
@@ -337,6 +373,13 @@ func errResult(err error) Result {
 // ExecStep runs one API call and canonicalises its outcome. Panics become results.
 func ExecStep(env *Env, task int, st *Step) (res Result) {
 	defer func() {
+		// runs last: whatever the outcome, the next chained call sees the path this call returned
+		// (nothing if it returned no path or panicked)
+		if task < len(env.Last) {
+			env.Last[task] = res.obj
+		}
+	}()
+	defer func() {
 		if r := recover(); r != nil {
 			if ab, ok := r.(simrt.ErrAbort); ok {
 				h := newHasher()
@@ -368,10 +411,19 @@ func topFrame(stack string) string {
 	return "?"
 }
 
+// operandA is the subject path of a geometry call: built from the description, or - chained - the
+// very object the task's previous call returned.
+func operandA(env *Env, task int, st *Step) *canvas.Path {
+	if st.ChainA && task < len(env.Last) && env.Last[task] != nil {
+		return env.Last[task]
+	}
+	return buildPath(st.A)
+}
+
 func execStep(env *Env, task int, st *Step) Result {
 	if st.Repeat && st.Op != "render" && st.Op != "richtext" {
 		// geometry: the same call on the very same input objects, twice
-		a, b := buildPath(st.A), buildPath(st.B)
+		a, b := operandA(env, task, st), buildPath(st.B)
 		first := geometryOp(st, a, b)
 		if again := geometryOp(st, a, b); !again.Equal(first) {
 			first.RepeatDiff = fmt.Sprintf("first call: %s; second call on the same path objects: %s", first.Brief, again.Brief)
@@ -380,7 +432,7 @@ func execStep(env *Env, task int, st *Step) Result {
 	}
 	switch st.Op {
 	case "and", "or", "xor", "not", "div":
-		a, b := buildPath(st.A), buildPath(st.B)
+		a, b := operandA(env, task, st), buildPath(st.B)
 		var r *canvas.Path
 		if st.AsPaths {
 			as, bs := canvas.Paths(a.Split()), canvas.Paths(b.Split())
@@ -412,19 +464,19 @@ func execStep(env *Env, task int, st *Step) Result {
 		}
 		return pathResult(r)
 	case "settle":
-		a := buildPath(st.A)
+		a := operandA(env, task, st)
 		if st.AsPaths {
 			return pathResult(canvas.Paths(a.Split()).Settle(fillRules[st.FillRule%4]))
 		}
 		return pathResult(a.Settle(fillRules[st.FillRule%4]))
 	case "stroke":
-		return pathResult(buildPath(st.A).Stroke(st.W, cappers[st.Cap%3], joiners[st.Join%6], st.Tol))
+		return pathResult(operandA(env, task, st).Stroke(st.W, cappers[st.Cap%3], joiners[st.Join%6], st.Tol))
 	case "offset":
-		return pathResult(buildPath(st.A).Offset(st.W, st.Tol))
+		return pathResult(operandA(env, task, st).Offset(st.W, st.Tol))
 	case "flatten":
 		return pathResult(buildPath(st.A).Flatten(st.Tol))
 	case "dash":
-		return pathResult(buildPath(st.A).Dash(st.Offset, st.Dashes...))
+		return pathResult(operandA(env, task, st).Dash(st.Offset, st.Dashes...))
 	case "clip":
 		return pathResult(buildPath(st.A).Clip(0, 0, st.W, st.W))
 	case "simplify":
@@ -484,6 +536,23 @@ func execStep(env *Env, task int, st *Step) Result {
 			return errResult(err)
 		}
 		return fontResult(f, false)
+	case "familyface":
+		// a font family shared by all tasks, asked for a (possibly unloaded) style
+		face := env.Family.Face(st.Size, color.Black, styles[st.Style%4], variants[st.Variant%3])
+		h := newHasher()
+		hashFace(h, face, env)
+		h.f64(face.TextWidth("family matters"))
+		res := Result{Kind: "font", Hash: h.h, Brief: fmt.Sprintf("shared family style %v: fauxbold=%v fauxitalic=%v", styles[st.Style%4], face.FauxBold, face.FauxItalic)}
+		if st.Repeat {
+			face2 := env.Family.Face(st.Size, color.Black, styles[st.Style%4], variants[st.Variant%3])
+			h2 := newHasher()
+			hashFace(h2, face2, env)
+			h2.f64(face2.TextWidth("family matters"))
+			if h2.h != h.h {
+				res.RepeatDiff = fmt.Sprintf("first Face: fauxbold=%v fauxitalic=%v; second identical Face call: fauxbold=%v fauxitalic=%v", face.FauxBold, face.FauxItalic, face2.FauxBold, face2.FauxItalic)
+			}
+		}
+		return res
 	case "fontinfo":
 		// what a caller can read off the shared loaded font: must not depend on what was rendered
 		// with it before
@@ -685,6 +754,14 @@ func drawCanvas(env *Env, d *Drawing) *canvas.Canvas {
 				ctx.SetFillPattern(canvas.NewLineHatch(fill, 30, 1.5, 0.3))
 			case 4:
 				ctx.SetFillPattern(canvas.NewCrossHatch(other, 0, 60, 2, 2.5, 0.25))
+			case 5, 6, 7, 8:
+				// a paint object shared by all canvases of the run (like a shared font)
+				switch pt := env.Paints[(it.Paint-5)%len(env.Paints)].(type) {
+				case canvas.Gradient:
+					ctx.SetFillGradient(pt)
+				case canvas.Pattern:
+					ctx.SetFillPattern(pt)
+				}
 			default:
 				ctx.SetFillColor(fill)
 			}
